@@ -633,58 +633,38 @@ Fixpoint rc_push (l : list (N * (topic * list blk))) (t : topic) (b : blk) : lis
   | (k, (t0, ch)) :: r => if k =? t_id t then (k, (t0, ch ++ [b])) :: r else (k, (t0, ch)) :: rc_push r t b
   end.
 
-(* entries seen by the recovery walk of one unit: from [es] at in-block offset [pos],
-   continuing while pos < block size *)
-Fixpoint walk_unit (c : Cfg) (es : list entry) (pos : N) (acc : list entry) : list entry * N :=
+(* entries seen by the recovery walk of one block: from [es] at in-block offset [pos],
+   continuing while pos < the block's extent [lim] *)
+Fixpoint walk_unit (c : Cfg) (lim : N) (es : list entry) (pos : N) (acc : list entry) : list entry * N :=
   match es with
   | [] => (rev acc, pos)
-  | e :: r => if c_block c <=? pos then (rev acc, pos) else walk_unit c r (pos + need c e) (e :: acc)
+  | e :: r => if lim <=? pos then (rev acc, pos) else walk_unit c lim r (pos + need c e) (e :: acc)
   end.
 
-(* what lies at offset [off] inside content [es]: entry boundary / zeros / inside a
-   header / inside a payload *)
-Inductive loc_view := LEntry (es : list entry) | LZero | LHeader | LPayload.
-Fixpoint locate (c : Cfg) (es : list entry) (off : N) : loc_view :=
-  match es with
-  | [] => LZero
-  | e :: r => if off =? 0 then LEntry es
-              else if off <? c_hdr c then LHeader
-              else if off <? need c e then LPayload
-              else locate c r (off - need c e)
-  end.
+(* the extent recovery derives from a block's first entry (the allocator's rounding) *)
+Definition extent_of (c : Cfg) (e : entry) : N :=
+  if c_block c <? need c e then div_up (need c e) (c_block c) * c_block c else c_block c.
 
-Fixpoint drop_done (blocks : list dblk) (off : N) : list dblk :=
-  match blocks with
-  | [] => []
-  | b :: rest => if d_off b + d_limit b <=? off then drop_done rest off else blocks
-  end.
-
-Fixpoint scan_file (c : Cfg) (fuel : nat) (f : N) (blocks : list dblk) (off : N) (next_id : N) (acc : recovered)
+(* scan the blocks of one file in offset order.  [zeros] = all-zero units seen since the last
+   block with data: they count towards the block ids only when data follows in this file.
+   The on-disk blocks of a file are contiguous from offset 0 (allocation is sequential), so
+   walking the list is walking the file unit by unit; a never-written block of k units is k
+   zero probes.  If the extent derived from the first entry is not the allocated one, the scan
+   is out of step with the layout: flagged (cannot happen for blocks written by this model). *)
+Fixpoint scan_blocks (c : Cfg) (f : N) (blocks : list dblk) (zeros : N) (next_id : N) (acc : recovered)
   : recovered * N :=
-  match fuel with
-  | O => (acc, next_id)
-  | S k =>
-    if c_file c <? off + c_block c then (acc, next_id) else
-    match drop_done blocks off with
-    | [] => (acc, next_id)                              (* zero probe: stop this file *)
-    | b :: rest =>
-      if off <? d_off b then (acc, next_id)
-      else if negb (d_limit b =? c_block c) then
-        (* a multi-unit block (an entry larger than a block): recovery walks it unit by unit
-           through payload bytes; what it makes of them is not modelled (finding D6) *)
-        ({| rc_chains := rc_chains acc; rc_flag := true |}, next_id)
-      else
-        match locate c (d_ents b) (off - d_off b), d_topic b with
-        | LEntry es, Some t =>
-          let '(seen, used) := walk_unit c es 0 [] in
-          let nb := {| b_id := next_id; b_file := f; b_off := off; b_limit := c_block c; b_used := used; b_ents := seen |} in
-          scan_file c k f blocks (off + c_block c) (next_id + 1)
-            {| rc_chains := rc_push (rc_chains acc) t nb; rc_flag := rc_flag acc |}
-        | LEntry _, None => (acc, next_id)
-        | LZero, _ => (acc, next_id)
-        | LPayload, _ => scan_file c k f blocks (off + c_block c) (next_id + 1) acc   (* junk header length: unit skipped *)
-        | LHeader, _ => ({| rc_chains := rc_chains acc; rc_flag := true |}, next_id)
-        end
+  match blocks with
+  | [] => (acc, next_id)
+  | b :: rest =>
+    match d_ents b, d_topic b with
+    | e1 :: _, Some t =>
+      let lim := extent_of c e1 in
+      if negb (lim =? d_limit b) then ({| rc_chains := rc_chains acc; rc_flag := true |}, next_id) else
+      let id := next_id + zeros in
+      let '(seen, used) := walk_unit c lim (d_ents b) 0 [] in
+      let nb := {| b_id := id; b_file := f; b_off := d_off b; b_limit := lim; b_used := used; b_ents := seen |} in
+      scan_blocks c f rest 0 (id + 1) {| rc_chains := rc_push (rc_chains acc) t nb; rc_flag := rc_flag acc |}
+    | _, _ => scan_blocks c f rest (zeros + d_limit b / c_block c) next_id acc
     end
   end.
 
@@ -694,7 +674,7 @@ Fixpoint scan_files (c : Cfg) (nfiles : nat) (f : N) (disk : list dblk) (next_id
   | O => (acc, next_id)
   | S k =>
     let blocks := filter (fun x => d_file x =? f) disk in
-    let '(acc', id') := scan_file c (N.to_nat (c_bpf c)) f blocks 0 next_id acc in
+    let '(acc', id') := scan_blocks c f blocks 0 next_id acc in
     scan_files c k (f + 1) disk id' acc'
   end.
 
